@@ -283,6 +283,27 @@ def check_empty_stack_form(ctx, rep, f, rule='R-PDAFORM.drain'):
                 depends = True
     if depends:
         rep.holds(rule, f, loops_over_gamma[0], 'the empty-stack form adds one pop move per stack symbol (drain)')
+        # the drain target must itself pop every symbol (a self-loop), otherwise at most one left-over symbol is removed
+        lp = loops_over_gamma[0]
+        ok_self = False
+        targets = set()
+        for c in adds:
+            if any(x is c for x in ast.walk(lp)):
+                src = c.func.value.slice.elts[0]
+                tgt = c.args[0].elts[0] if c.args and isinstance(c.args[0], ast.Tuple) else None
+                if tgt is None:
+                    continue
+                targets.add(u(tgt))
+                # the source ranges over an enclosing loop whose iterable mentions the target state
+                for outer in walk_no_nested(f.node):
+                    if isinstance(outer, ast.For) and any(x is lp for x in ast.walk(outer)) and u(outer.target) == u(src) and u(tgt) in names_in(outer.iter):
+                        ok_self = True
+                if u(src) == u(tgt):
+                    ok_self = True
+        if ok_self:
+            rep.holds(rule, f, 'drain self-loop', 'the drain state {} pops every stack symbol into itself, so any number of left-over symbols is removed'.format(sorted(targets)))
+        else:
+            rep.violates(rule, f, lp, 'the pop moves for the stack symbols lead into {} but that state does not pop the remaining symbols itself: only one left-over symbol can be removed, words accepted with two or more symbols on the stack are lost'.format(sorted(targets)))
     else:
         rep.violates(rule, f, 'def ' + f.name, 'no transition added by the empty-stack form depends on the stack alphabet: the stack is never drained, so a PDA that accepts with symbols left on its stack loses those words (q0 -a,eps->x- q1 accepts a; its empty-stack form and its grammar accept nothing); doc/main.tex specifies a drain state')
     return len(adds)
